@@ -751,14 +751,17 @@ func shortFuncName(fn *ssa.Function) string {
 	return s
 }
 
+// propsOf: a clause counts for the properties of its function and for any extra property it is tagged with.
 func (fr *Frame) propsOf(c *Clause) []string {
-	if len(c.Props) > 0 {
-		return c.Props
-	}
+	out := append([]string{}, c.Props...)
 	if fr.ex.topC != nil {
-		return fr.ex.topC.Props
+		for _, p := range fr.ex.topC.Props {
+			if !hasProp(out, p) {
+				out = append(out, p)
+			}
+		}
 	}
-	return nil
+	return out
 }
 
 // loopEnv builds the environment for a loop invariant.
